@@ -336,7 +336,7 @@ Definition kst (kcs : list kcls) (st : state) (x : option nat) : kstate :=
 Lemma set_bases_kst g st x kcs c k bases :
   Forall2 bases_match kcs (classes st) -> nth_error kcs c = Some k -> NoDup (map fst (cache st)) ->
   p_set_bases gen_Provides_changed g (kst kcs st x) (NC c) bases =
-  mkK (upd kcs c (mkKC (kc_pybases k) (kc_declared k) (kc_inherit k) bases (kc_provides k) (kc_meta k) (kc_builtin k) (kc_created k)))
+  mkK (upd kcs c (mkKC (kc_pybases k) (kc_declared k) (kc_inherit k) bases (kc_provides k) (kc_meta k) (kc_builtin k) (kc_created k) (kc_old k)))
       (map embed_inst (insts st)) (map embed_entry (evict true (classes st) c (cache st))) x.
 Proof.
   intros HM Ek ND. unfold p_set_bases, kst. cbn [kclasses kinsts kcache kexc]. rewrite Ek.
@@ -432,11 +432,11 @@ Proof.
     rewrite E1. clear E1. rewrite dd_nil, kdedup_map_NI in *.
     assert (Hlen : c < length (map embed_cls (classes st))) by (rewrite map_length; eapply nth_error_lt; eauto).
     unfold p_set_declared, kset. cbn [embed_exc kclasses kinsts kcache kexc].
-    rewrite nth_error_embed_cls, E. cbn [option_map embed_cls kc_pybases kc_inherit kc_bases kc_provides kc_meta kc_builtin kc_created].
+    rewrite nth_error_embed_cls, E. cbn [option_map embed_cls kc_pybases kc_inherit kc_bases kc_provides kc_meta kc_builtin kc_created kc_old].
     unfold p_inherit_is_set, p_inherit_pybases, kget. cbn [kclasses]. rewrite nth_error_upd_eq by auto.
     cbn [kc_inherit kc_pybases]. rewrite negb_involutive.
     set (k1 := mkKC (c_bases r) (map NI (dedup L)) (c_inherit r) (spec_bases r)
-                    (map NI (c_cprov r) ++ [p_implementedBy (meta_ref (c_meta r))]) (c_meta r) (c_builtin r) true).
+                    (map NI (c_cprov r) ++ [p_implementedBy (meta_ref (c_meta r))]) (c_meta r) (c_builtin r) true None).
     assert (HB : exists seen2,
       (if c_inherit r
        then let '(s, new_declared, seen, bases) :=
@@ -526,7 +526,7 @@ Proof.
     unfold p_set_declared, p_set_inherit_none, kset. cbn [embed_exc kclasses kinsts kcache kexc].
     rewrite nth_error_embed_cls, E. cbn [option_map kclasses]. rewrite nth_error_upd_eq by auto.
     cbn [kclasses kinsts kcache kexc]. rewrite upd_upd.
-    cbn [embed_cls kc_pybases kc_declared kc_inherit kc_bases kc_provides kc_meta kc_builtin kc_created].
+    cbn [embed_cls kc_pybases kc_declared kc_inherit kc_bases kc_provides kc_meta kc_builtin kc_created kc_old].
     match goal with |- context [p_set_bases _ _ (mkK (upd _ c ?k) _ _ _) _ _] => set (k2 := k) end.
     fold (kst (upd (map embed_cls (classes st)) c k2) st x).
     rewrite (set_bases_kst g st x _ c k2); auto.
@@ -642,7 +642,7 @@ Proof.
       match nth_error (classes st) c with
       | Some r => mkK (upd (map embed_cls (classes st)) c
                            (mkKC (c_bases r) (map NI (c_decl r)) (c_inherit r) (spec_bases r)
-                                 (gen_add_interfaces_to_cls g (embed_exc st x) (map NI l) ref) (c_meta r) (c_builtin r) true))
+                                 (gen_add_interfaces_to_cls g (embed_exc st x) (map NI l) ref) (c_meta r) (c_builtin r) true None))
                       (map embed_inst (insts st)) (map embed_entry (cache st)) x
       | None => embed_exc st x
       end).
@@ -653,7 +653,7 @@ Proof.
       rewrite Hnb.
       assert (Hres : mkK (upd (map embed_cls (classes st)) c
                            (mkKC (c_bases r) (map NI (c_decl r)) (c_inherit r) (spec_bases r)
-                                 (gen_add_interfaces_to_cls g (embed_exc st x) (map NI l) (meta_ref (c_meta r))) (c_meta r) (c_builtin r) true))
+                                 (gen_add_interfaces_to_cls g (embed_exc st x) (map NI l) (meta_ref (c_meta r))) (c_meta r) (c_builtin r) true None))
                       (map embed_inst (insts st)) (map embed_entry (cache st)) x =
                      embed_exc (mkS (upd (classes st) c (mkC (c_bases r) (c_decl r) (c_inherit r)
                                       (keepnew (closure g (meta_direct r)) l) (c_meta r) false)) (insts st) (cache st)) x).
@@ -872,6 +872,7 @@ Proof.
   destruct (zcreated fl b) eqn:Eb; auto. destruct (nth_error cs b) as [r|] eqn:E; auto.
   destruct (Nat.eq_dec b d) as [->|Hne]; [right; lia|].
   unfold zcreated in H. rewrite nth_upd_ne in H by auto.
+  destruct (c_inherit r); [|left; exact H].
   fold (zcreated (fold_left (zensure_f cs f) (c_bases r) fl) d) in H.
   assert (Hl : forall l fl0, (forall b', In b' l -> b' < b) ->
              zcreated (fold_left (zensure_f cs f) l fl0) d = true -> zcreated fl0 d = true \/ d < b).
@@ -930,9 +931,10 @@ Proof.
   pose proof (kclasses_zembed cs ins ca fl x c r L E) as Ek.
   set (S0 := zembed (mkS cs ins ca, fl) x) in *.
   assert (Hdict : p_dict_get_implemented S0 (RClass c) =
-                  if zcreated fl c && negb (c_builtin r) then DSpec (NC c) else DNone).
+                  if zcreated fl c then (if c_builtin r then DNone else DSpec (NC c))
+                  else if c_inherit r then DNone else DOld (map NI (c_decl r))).
   { unfold p_dict_get_implemented. rewrite Ek. unfold zembed_cls, embed_cls. cbn [fst snd].
-    destruct (zcreated fl c), (c_builtin r); reflexivity. }
+    destruct (zcreated fl c), (c_builtin r), (c_inherit r); reflexivity. }
   assert (Htab : p_table_get S0 (RClass c) = if zcreated fl c && c_builtin r then DSpec (NC c) else DNone).
   { unfold p_table_get, kcget. rewrite Ek. unfold zembed_cls, embed_cls. cbn [fst snd].
     destruct (zcreated fl c), (c_builtin r); reflexivity. }
@@ -943,64 +945,104 @@ Proof.
   destruct (zcreated fl c) eqn:Ecr.
   - (* the specification exists: __dict__ or the builtin table *)
     destruct (c_builtin r); reflexivity.
-  - (* creation from the bases' specifications *)
-    destruct (D c r E Ecr) as [Hd [Hi Hp]].
-    cbn [andb p_dv_is_implements p_dv_is_none negb].
-    assert (Hb : forall b, In b (c_bases r) -> b < f /\ b < length cs).
-    { intros b Hb. pose proof (W _ _ _ E Hb). lia. }
-    assert (Hfold : forall l fl0 acc, (forall b, In b l -> b < f /\ b < length cs) -> zok cs fl0 ->
-      fold_left (fun '(s, acc) c0 => let '(s0, v) := gen_implementedBy f g s c0 in (s0, acc ++ [v]))
-                (map RClass l) (zembed (mkS cs ins ca, fl0) x, acc)
-      = (zembed (mkS cs ins ca, fold_left (zensure_f cs f) l fl0) x, acc ++ map NC l)).
-    { induction l as [|b l IHl]; intros fl0 acc Hl Hok0; cbn [map fold_left]; [rewrite app_nil_r; auto|].
-      destruct (Hl b (or_introl eq_refl)) as [Hb1 Hb2]. rewrite (IH fl0 b Hok0 Hb1 Hb2).
-      rewrite IHl; [|intros; apply Hl; right; auto|apply zok_ensure; auto].
-      rewrite <- app_assoc. reflexivity. }
-    subst S0. rewrite (Hfold (c_bases r) fl [] Hb (conj L (conj Cl D))). cbn [app].
-    set (fl1 := fold_left (zensure_f cs f) (c_bases r) fl).
-    assert (Hok1 : zok cs fl1).
-    { apply fold_zok; auto.
-      - intros b Hb'. apply (proj1 (Hb b Hb')).
-      - split; [|split]; auto. }
-    assert (Hc1 : zcreated fl1 c = false).
-    { apply fold_uncreated; auto. intros b Hb'. eapply W; eauto. }
-    destruct Hok1 as [L1 [Cl1 D1]].
-    pose proof (kclasses_zembed cs ins ca fl1 x c r L1 E) as Ek1. rewrite Hc1 in Ek1.
-    set (K := map zembed_cls (combine cs fl1)).
-    change (zembed (mkS cs ins ca, fl1) x) with (mkK K (map embed_inst ins) (map embed_entry ca) x) in *.
-    cbn [kclasses] in Ek1.
-    change (zembed_cls (r, false)) with (mkKC (c_bases r) [] false [] [] (c_meta r) (c_builtin r) false) in Ek1.
-    assert (HcK : c < length K) by (eapply nth_error_lt; eauto).
-    unfold p_implements_named, p_implements_name, kcset. rewrite (kset_some _ _ _ _ c _ _ Ek1).
-    cbv iota beta. cbn [p_dv_spec p_implementedBy].
-    unfold p_set_inherit_cls. rewrite kset_upd by auto. unfold p_set_implements_cls.
-    assert (Hcan : forall k, p_can_setattr (mkK (upd K c k) (map embed_inst ins) (map embed_entry ca) x) (RClass c)
-                             = negb (kc_builtin k)).
-    { intros k. unfold p_can_setattr, kcget. cbn [kclasses]. rewrite nth_error_upd_eq by auto. auto. }
-    rewrite Hcan. cbn [kc_builtin kc_pybases kc_provides kc_meta kc_created].
-    rewrite E.
-    assert (Hfin : map zembed_cls (combine cs (upd fl1 c true)) = upd K c (zembed_cls (r, true))).
-    { rewrite (combine_upd_r _ _ _ r true E), map_upd. reflexivity. }
-    unfold zembed at 1. cbn [fst snd classes insts cache]. fold fl1. rewrite Hfin.
-    assert (Hbs : spec_bases r = map NC (c_bases r)).
-    { unfold spec_bases. rewrite Hd, Hi, (dedup_NoDup_id _ (Nd _ _ E)). reflexivity. }
-    destruct (c_builtin r) eqn:Eb; cbn [negb].
-    + (* immutable type: the builtin table *)
-      cbn [p_as_object p_isinstance_type negb].
-      unfold p_table_set, kmark_created, kcset. rewrite kset_upd by auto.
-      cbn [kc_builtin kc_pybases kc_provides kc_meta kc_created kc_declared kc_inherit kc_bases p_dv_spec].
-      unfold zembed_cls. cbn [fst snd]. rewrite Eb, Hd, Hi, Hbs. reflexivity.
-    + unfold p_store_dict, kmark_created, kcset. rewrite kset_upd by auto.
-      unfold p_hasattr_providedBy, p_install_osd. cbn [negb]. cbv iota beta.
-      cbn [p_as_object p_isinstance_type p_has_own_provides negb andb]. cbv iota beta.
-      unfold p_set_provides, p_new_class_provides. cbn [snd]. rewrite kset_upd by auto.
-      cbn [kc_builtin kc_pybases kc_provides kc_meta kc_created kc_declared kc_inherit kc_bases p_dv_spec].
-      assert (Hga : forall k, p_getattr_class (mkK (upd K c k) (map embed_inst ins) (map embed_entry ca) x) (TCls c)
-                              = meta_ref (kc_meta k)).
-      { intros k. cbn [p_getattr_class kclasses]. rewrite nth_error_upd_eq by auto. auto. }
-      rewrite Hga. cbn [kc_meta]. change (@nil node) with (map NI []).
-      rewrite generated_add_interfaces_to_cls_meta. cbn [keepnew filter map app].
-      unfold zembed_cls, embed_cls. cbn [fst snd]. rewrite Eb, Hd, Hi, Hp, Hbs. reflexivity.
+  - destruct (D c r E Ecr) as [Hd Hp]. rewrite E.
+    set (K := map zembed_cls (combine cs fl)).
+    assert (HcK0 : length K = length cs).
+    { unfold K. rewrite map_length, combine_length, L. lia. }
+    assert (Hfin : forall fl', map zembed_cls (combine cs (upd fl' c true)) = upd (map zembed_cls (combine cs fl')) c (zembed_cls (r, true))).
+    { intros fl'. rewrite (combine_upd_r _ _ _ r true E), map_upd. reflexivity. }
+    assert (Hcan : forall K' k, c < length K' ->
+              p_can_setattr (mkK (upd K' c k) (map embed_inst ins) (map embed_entry ca) x) (RClass c) = negb (kc_builtin k)).
+    { intros K' k HK'. unfold p_can_setattr, kcget. cbn [kclasses]. rewrite nth_error_upd_eq by auto. auto. }
+    assert (Hga : forall K' k, c < length K' ->
+              p_getattr_class (mkK (upd K' c k) (map embed_inst ins) (map embed_entry ca) x) (TCls c) = meta_ref (kc_meta k)).
+    { intros K' k HK'. cbn [p_getattr_class kclasses]. rewrite nth_error_upd_eq by auto. auto. }
+    destruct (c_inherit r) eqn:Ei.
+    + (* new-style: creation from the bases' specifications *)
+      specialize (Hd eq_refl). cbn [andb p_dv_is_implements p_dv_is_none negb].
+      assert (Hb : forall b, In b (c_bases r) -> b < f /\ b < length cs).
+      { intros b Hb. pose proof (W _ _ _ E Hb). lia. }
+      assert (Hfold : forall l fl0 acc, (forall b, In b l -> b < f /\ b < length cs) -> zok cs fl0 ->
+        fold_left (fun '(s, acc) c0 => let '(s0, v) := gen_implementedBy f g s c0 in (s0, acc ++ [v]))
+                  (map RClass l) (zembed (mkS cs ins ca, fl0) x, acc)
+        = (zembed (mkS cs ins ca, fold_left (zensure_f cs f) l fl0) x, acc ++ map NC l)).
+      { induction l as [|b l IHl]; intros fl0 acc Hl Hok0; cbn [map fold_left]; [rewrite app_nil_r; auto|].
+        destruct (Hl b (or_introl eq_refl)) as [Hb1 Hb2]. rewrite (IH fl0 b Hok0 Hb1 Hb2).
+        rewrite IHl; [|intros; apply Hl; right; auto|apply zok_ensure; auto].
+        rewrite <- app_assoc. reflexivity. }
+      subst S0. rewrite (Hfold (c_bases r) fl [] Hb (conj L (conj Cl D))). cbn [app].
+      set (fl1 := fold_left (zensure_f cs f) (c_bases r) fl).
+      assert (Hok1 : zok cs fl1).
+      { apply fold_zok; auto.
+        - intros b Hb'. apply (proj1 (Hb b Hb')).
+        - split; [|split]; auto. }
+      assert (Hc1 : zcreated fl1 c = false).
+      { apply fold_uncreated; auto. intros b Hb'. eapply W; eauto. }
+      destruct Hok1 as [L1 [Cl1 D1]].
+      pose proof (kclasses_zembed cs ins ca fl1 x c r L1 E) as Ek1. rewrite Hc1 in Ek1.
+      set (K1 := map zembed_cls (combine cs fl1)).
+      change (zembed (mkS cs ins ca, fl1) x) with (mkK K1 (map embed_inst ins) (map embed_entry ca) x) in *.
+      cbn [kclasses] in Ek1.
+      change (zembed_cls (r, false)) with (mkKC (c_bases r) [] false [] [] (c_meta r) (c_builtin r) false
+                                                (if c_inherit r then None else Some (map NI (c_decl r)))) in Ek1.
+      rewrite Ei in Ek1.
+      assert (HcK : c < length K1) by (eapply nth_error_lt; eauto).
+      unfold p_implements_named, p_implements_name, kcset. rewrite (kset_some _ _ _ _ c _ _ Ek1).
+      cbv iota beta. cbn [p_dv_spec p_implementedBy].
+      unfold p_set_inherit_cls. rewrite kset_upd by auto. unfold p_set_implements_cls.
+      rewrite Hcan by auto. cbn [kc_builtin kc_pybases kc_provides kc_meta kc_created kc_old].
+      unfold zembed at 1. cbn [fst snd classes insts cache]. rewrite Hfin. fold K1.
+      assert (Hbs : spec_bases r = map NC (c_bases r)).
+      { unfold spec_bases. rewrite Hd, Ei, (dedup_NoDup_id _ (Nd _ _ E)). reflexivity. }
+      destruct (c_builtin r) eqn:Eb; cbn [negb].
+      * cbn [p_as_object p_isinstance_type negb].
+        unfold p_table_set, kmark_created, kcset. rewrite kset_upd by auto.
+        cbn [kc_builtin kc_pybases kc_provides kc_meta kc_created kc_declared kc_inherit kc_bases kc_old p_dv_spec].
+        assert (Hz : zembed_cls (r, true) = mkKC (c_bases r) (map NI (c_decl r)) (c_inherit r) (spec_bases r) [] (c_meta r) true true None)
+          by (unfold zembed_cls; cbn [fst snd]; rewrite Eb; reflexivity).
+        rewrite Hz, Hd, Ei, Hbs. reflexivity.
+      * unfold p_store_dict, kmark_created, kcset. rewrite kset_upd by auto.
+        unfold p_hasattr_providedBy, p_install_osd. cbn [negb]. cbv iota beta.
+        cbn [p_as_object p_isinstance_type p_has_own_provides negb andb]. cbv iota beta.
+        unfold p_set_provides, p_new_class_provides. cbn [snd]. rewrite kset_upd by auto.
+        cbn [kc_builtin kc_pybases kc_provides kc_meta kc_created kc_declared kc_inherit kc_bases kc_old p_dv_spec].
+        rewrite Hga by auto. cbn [kc_meta]. change (@nil node) with (map NI []).
+        rewrite generated_add_interfaces_to_cls_meta. cbn [keepnew filter map app].
+        assert (Hz : zembed_cls (r, true) = embed_cls r) by (unfold zembed_cls; cbn [fst snd]; rewrite Eb; reflexivity).
+        rewrite Hz. unfold embed_cls. rewrite Eb, Hd, Ei, Hp, Hbs. reflexivity.
+    + (* old-style ``__implemented__`` attribute: declared = its interfaces, inherit = None *)
+      cbn [andb p_dv_is_implements p_dv_is_none negb p_dv_old]. unfold p_normalizeargs.
+      subst S0. fold K in Ek.
+      change (zembed (mkS cs ins ca, fl) x) with (mkK K (map embed_inst ins) (map embed_entry ca) x) in *.
+      cbn [kclasses] in Ek.
+      change (zembed_cls (r, false)) with (mkKC (c_bases r) [] false [] [] (c_meta r) (c_builtin r) false
+                                                (if c_inherit r then None else Some (map NI (c_decl r)))) in Ek.
+      rewrite Ei in Ek.
+      assert (HcK : c < length K) by (eapply nth_error_lt; eauto).
+      unfold p_implements_named, p_implements_name, kcset. rewrite (kset_some _ _ _ _ c _ _ Ek).
+      cbv iota beta. cbn [p_dv_spec p_implementedBy].
+      unfold p_set_inherit_none, p_set_declared, p_del_dict_implemented, kcset. rewrite !kset_upd by auto.
+      unfold p_set_implements_cls. rewrite Hcan by auto.
+      cbn [kc_builtin kc_pybases kc_provides kc_meta kc_created kc_old kc_declared kc_inherit kc_bases].
+      unfold zembed at 1. cbn [fst snd classes insts cache]. rewrite Hfin. fold K.
+      assert (Hbs : spec_bases r = map NI (c_decl r)).
+      { unfold spec_bases. rewrite Ei, app_nil_r. reflexivity. }
+      destruct (c_builtin r) eqn:Eb; cbn [negb].
+      * cbn [p_as_object p_isinstance_type negb].
+        unfold p_table_set, kmark_created, kcset. rewrite kset_upd by auto.
+        cbn [kc_builtin kc_pybases kc_provides kc_meta kc_created kc_declared kc_inherit kc_bases kc_old p_dv_spec].
+        assert (Hz : zembed_cls (r, true) = mkKC (c_bases r) (map NI (c_decl r)) (c_inherit r) (spec_bases r) [] (c_meta r) true true None)
+          by (unfold zembed_cls; cbn [fst snd]; rewrite Eb; reflexivity).
+        rewrite Hz, Ei, Hbs. reflexivity.
+      * unfold p_store_dict, kmark_created, kcset. rewrite kset_upd by auto.
+        unfold p_hasattr_providedBy, p_install_osd. cbn [negb]. cbv iota beta.
+        cbn [p_as_object p_isinstance_type p_has_own_provides negb andb]. cbv iota beta.
+        unfold p_set_provides, p_new_class_provides. cbn [snd]. rewrite kset_upd by auto.
+        cbn [kc_builtin kc_pybases kc_provides kc_meta kc_created kc_declared kc_inherit kc_bases kc_old p_dv_spec].
+        rewrite Hga by auto. cbn [kc_meta]. change (@nil node) with (map NI []).
+        rewrite generated_add_interfaces_to_cls_meta. cbn [keepnew filter map app].
+        assert (Hz : zembed_cls (r, true) = embed_cls r) by (unfold zembed_cls; cbn [fst snd]; rewrite Eb; reflexivity).
+        rewrite Hz. unfold embed_cls. rewrite Eb, Ei, Hp, Hbs. reflexivity.
 Qed.
 
 Lemma generated_implementedBy_eq_lazy g qs x c :
